@@ -23,29 +23,44 @@ from vlib import vZ, vlist, vpair
 
 LEVEL = "proof"
 TRUSTED_BASE = [
-    "Coq 8.16.1 kernel + vm_compute (case evaluation); no native_compute",
+    "Coq 8.16.1 kernel + vm_compute (case evaluation, the two refutation witnesses, the finite dispatch comparison); "
+    "no native_compute",
     "axioms: none (Print Assumptions: Closed under the global context for every C04 theorem)",
-    "Model/Dot.v as a transcription of the Python source of the numba kernels (_csr_csr_count_nnz, _dot_csr_csr, "
-    "_dot_coo_coo, _dot_coo_ndarray, GCXS._prune, the _dot dispatch); Numba's compilation is trusted to preserve the "
-    "source semantics, checked by running the COMPILED kernels against the model on every generated case",
-    "output buffers modelled as the list of cells written at the cursor plus a capacity (all writes of the kernels "
-    "are `buf[nnz] = ...; nnz += 1`); scratch reads outside a buffer return a default (never happens on well-formed "
-    "operands, which is what the theorems assume)",
-    "tools/py2v.py translation of dot / tensordot's 0-d block / vecdot (Gen/G_dot.v) and tools/sitegen/dot.py "
-    "(matmul case chain, tensordot zero-size shortcut, _dot dispatch table) with their extern maps",
-    "Spec/NpDot.v as a description of np.matmul/np.tensordot on dense arrays, cross-checked against NumPy on every "
-    "generated 2-d case (verdict code 22)",
-    "tensordot_den is about the axis bookkeeping on the dense meaning: the den-correctness of COO/GCXS "
-    "transpose/reshape is C08's subject",
+    "Model/Dot.v as a transcription of the Python source of the numba kernels (_csr_csr_count_nnz, _dot_csr_csr incl. its "
+    "per-row argsort, _dot_coo_coo, _dot_coo_ndarray, _csc_ndarray_count_nnz, _dot_csc_ndarray_sparse, GCXS._prune); Numba's "
+    "compilation is trusted to preserve the source semantics, checked by running the COMPILED kernels against the model on "
+    "every generated case (exact output: data, indices in order, indptr)",
+    "modelling of buffers: every write to a pre-sized output buffer is `buf[nnz] = ...; nnz += 1`, so a buffer is the list of "
+    "cells written plus its capacity (longer = out-of-bounds write, shorter = unwritten np.empty tail); scratch reads outside "
+    "a buffer return a default (cannot happen on well-formed operands, which the theorems assume); the per-row "
+    "np.argsort is any sorting permutation (the row's columns are proved pairwise distinct, so the sorted row is unique)",
+    "tools/py2v.py (Gen/G_dot.v: dot, tensordot's 0-d block, vecdot) and tools/sitegen/dot.py (Gen/S_dot.v: abstract "
+    "execution of _dot's AST over operand kinds x return types, matmul's case chain, tensordot's zero-size shortcut) with "
+    "their extern maps / pinned statement texts",
+    "Spec/NpDot.v as a description of np.matmul / np.dot (1-d) / np.tensordot on dense arrays, cross-checked against NumPy "
+    "on every generated 2-d case (verdict code 22)",
+    "csr_den (Model/Dot.v) as the dense meaning of a CSR triple; its agreement with the shared gden/todense of "
+    "Model/GCXS.v is checked on every kernel case (judge code 4), not proved",
+    "tensordot_den is about the axis bookkeeping on the dense meaning of the operands: den-correctness of COO/GCXS "
+    "transpose and reshape is C08's subject",
     "correspondence harness tools/props/c04.py, tools/vlib.py; scipy.sparse operands are converted by "
     "GCXS.from_scipy_sparse (not modelled)",
 ]
 ASSUMPTIONS = [
-    "element values: a commutative semiring in the theorems (Section variables, instantiated at Z in the "
-    "Examples and in the judge); float rounding, dtype promotion and overflow of narrow integers are not "
-    "modelled (dtype of results: differential only, compared in Python)",
-    "einsum subscript parsing (_parse_einsum_input), multi-operand einsum, kron, outer, vecdot and matmul batch "
-    "broadcasting: correspondence against NumPy only (differential), no theorem",
+    "element values form a commutative semiring in spgemm_den / spgemm_csc_den (hypothesis comm_semiring, instantiated at "
+    "Z in the Examples and in the judge); float rounding, dtype promotion and overflow of narrow integers are not modelled "
+    "(result dtypes: differential only, compared in Python)",
+    "multi-operand einsum, _einsum_single, _parse_einsum_input, kron, outer, vecdot, matmul batch recursion, the four "
+    "ndarray kernels' values and GCXS._prune: correspondence only (against NumPy / the Spec), no theorem",
+]
+UNPROVED = [
+    "einsum_single_den (DESIGN MVP): not modelled; einsum is differential only",
+    "value theorems of _dot_csr_ndarray(_sparse), _dot_csc_ndarray(_sparse), _dot_coo_ndarray(_sparse), "
+    "_dot_ndarray_coo(_sparse) (DESIGN extension): only termination of _dot_coo_ndarray is proved; values by correspondence "
+    "with the Spec inside Coq",
+    "csc_ndarray_*_partial: no positive theorem for _dot_csc_ndarray_sparse (only the two refutations)",
+    "prune_den (GCXS(..., prune=True) keeps the dense meaning) and csr_den = gden bridge: correspondence only",
+    "matmul batch broadcasting, kron_den, multi-operand einsum (DESIGN extension)",
 ]
 
 CL_D20 = "D20_gcxs_zero_extent"
@@ -919,6 +934,7 @@ def campaign(build, tier, seed, report, budget=1):
                    "cancellations, fully dense products; API level: every kind pair x return type on 2-d shapes cycling through "
                    "all extent triples over {0,1,2,3}, then seeded n-d tensordot / matmul batch / einsum / vecdot / kron / outer / "
                    "malformed / dtype streams; distinct = distinct (op, operands, kinds, parameters) with both operands non-empty")
+    cov["unproved_statements"] = UNPROVED
     cov["differential_only"] = ["result dtype (compared in Python)", "n-d tensordot, matmul batch broadcasting, einsum, vecdot, kron, outer: "
                                 "values against NumPy's answer (judge flags = 0)"]
     cov["samples"] = [dict(case=kc[0], impl=kres[0]), dict(case={k: v for k, v in ac[0].items()}, impl=ares[0]),
